@@ -87,6 +87,13 @@ func newResolver(u *Universe) *resolver {
 }
 
 func (r *resolver) bind(a int, ad common.Address) {
+	// CREATE derives the address from the creator's nonce: when a failed frame undid the nonce increment, the
+	// next CREATE of that creator lands on the address of the (undone) earlier one.  The spec names every
+	// created contract afresh, so the older name stops denoting this address.
+	if old, ok := r.back[ad.Bytes20()]; ok && old != a {
+		r.bound[old-1] = false
+		r.addr[old-1] = common.Address{}
+	}
 	r.addr[a-1] = ad
 	r.bound[a-1] = true
 	r.back[ad.Bytes20()] = a
